@@ -38,6 +38,9 @@ func runC01(c *core.Ctx) *core.Outcome {
 	cfg.FinishAlways = true // both twins must live through the same history even when a render is refused
 	p := fullProfile(t, cfg.FlagCount)
 	p.MaxRows = 14
+	// a MOVE behind matched INCMP lines makes the matched target's code run at the MOVE's target: legal, but
+	// the comparison with the unsized twin below reasons about "the page of node X" from X's own code
+	p.FallMove = false
 	a := app.Generate(t, p)
 	if err := a.Validate(); err != nil {
 		panic("generator produced ill-formed app: " + err.Error())
